@@ -142,7 +142,9 @@ def _call(args):
 def pmap(fn, items, nproc=None):
     """Run fn over items in forked worker processes (fn must be a module-level function)."""
     items = list(items)
-    nproc = min(nproc or NPROC, max(1, len(items)))
+    # at least two items per worker process where possible: state that leaks from one call of the library into the
+    # next (module-level caches, numpy settings) can only show if a process serves more than one case
+    nproc = min(nproc or NPROC, max(1, (len(items) + 1) // 2))
     if nproc == 1:
         res = [_call((fn, it)) for it in items]
     else:
